@@ -742,7 +742,8 @@ Qed.
 Lemma r2e_op_OShrink : forall b0, r2e_post false s (step_op debug (OShrink b0) s).
 Proof.
   intros b0. cbn [step_op].
-  destruct (D_shrink_spec s b0 HS) as (b & s1 & E & D1 & D2 & _ & D4 & _ & _ & D7 & D8 & _ & _ & _ & D13).
+  pose proof (proj2 HQ) as EL.
+  destruct (D_shrink_spec_w s b0 HS EL) as (b & s1 & E & D1 & D2 & _ & D4 & _ & _ & D7 & D8 & _ & _ & _ & D13).
   rewrite (sa_bind_ok E). unfold ret. apply r2e_post_false. cbn [state_of].
   split; [exact D1|]. split; [apply D13; exact HK|]. split; [apply (r2e_quiet_side s s1 D7 HQ)|].
   destruct D8 as (F1 & _ & _ & _ & F5 & _). split; [exact F1|]. split; [exact F5|]. left. split; [rewrite D4; apply sc_pcreate_refl|].
@@ -2917,10 +2918,15 @@ Proof.
   apply X.
 Qed.
 
-Lemma r2e_hkp_shrink : forall stop0, r2e_hkp (w_shrink stop0).
+Lemma r2e_hkp_shrink_core : forall stop0, r2e_hkp (w_shrink_core stop0).
 Proof.
   intros stop0 s. rewrite ResetShrinkProofs.r_shrink_eq. pose proof (r2e_hkp_go stop0 (length (w_tables s)) 0 false s) as H.
   destruct (ResetShrinkProofs.r_go stop0 (length (w_tables s)) 0 false s); exact H.
+Qed.
+
+Lemma r2e_hkp_shrink : forall stop0, r2e_hkp (w_shrink stop0).
+Proof.
+  intros stop0. unfold w_shrink. apply r2e_hkp_bind; [apply r2e_hkp_ro, sc_ro_check_locked|]. intros _. apply r2e_hkp_shrink_core.
 Qed.
 
 Lemma r2e_hkp_write_cell : forall tid ci row v, r2e_hkp (write_cell tid ci row v).
